@@ -38,6 +38,71 @@ type inst struct {
 	race   bool
 	unin   []string
 	counts map[string]int
+	loops  []*loopInfo // enclosing for / range statements of the statement being rewritten (reset inside function literals)
+}
+
+// loopInfo is one enclosing loop; tok is set once a go statement in it has been
+// found to start interchangeable workers (see symSpawn).
+type loopInfo struct {
+	node ast.Node
+	tok  string
+}
+
+// symSpawn decides whether the go statement starts interchangeable workers: a
+// function literal called without arguments, directly inside a loop of the
+// same function, none of whose free variables is declared inside that loop
+// (so every iteration runs the same code over the same variables).  It
+// returns the loop, or nil.
+func (in *inst) symSpawn(s *ast.GoStmt) *loopInfo {
+	if len(in.loops) == 0 || len(s.Call.Args) != 0 {
+		return nil
+	}
+	lit, ok := s.Call.Fun.(*ast.FuncLit)
+	if !ok {
+		return nil
+	}
+	l := in.loops[len(in.loops)-1]
+	ok = true
+	ast.Inspect(lit, func(n ast.Node) bool {
+		id, isID := n.(*ast.Ident)
+		if !isID {
+			return true
+		}
+		obj := in.info.Uses[id]
+		if obj == nil {
+			return true
+		}
+		switch obj.(type) {
+		case *types.Var, *types.Label, *types.Const, *types.TypeName, *types.Func:
+		default:
+			return true
+		}
+		dp := obj.Pos()
+		if dp >= lit.Pos() && dp < lit.End() {
+			return true // declared inside the literal
+		}
+		if dp >= l.node.Pos() && dp < l.node.End() {
+			ok = false // declared by or inside the loop: differs from iteration to iteration
+		}
+		return true
+	})
+	if !ok {
+		return nil
+	}
+	return l
+}
+
+// withLoop rewrites a loop body with the loop pushed on the stack and returns
+// the declaration of the loop's symmetry token if one was requested.
+func (in *inst) withLoop(node ast.Node, body *ast.BlockStmt) []ast.Stmt {
+	l := &loopInfo{node: node}
+	in.loops = append(in.loops, l)
+	body.List = in.block(body.List)
+	in.loops = in.loops[:len(in.loops)-1]
+	if l.tok == "" {
+		return nil
+	}
+	return []ast.Stmt{&ast.DeclStmt{Decl: &ast.GenDecl{Tok: token.VAR, Specs: []ast.Spec{&ast.ValueSpec{Names: []*ast.Ident{ast.NewIdent(l.tok)}, Type: vrtSel("SymTok")}}}}}
 }
 
 func (in *inst) uninstrumented(pos token.Pos, why string) {
@@ -284,7 +349,10 @@ func (in *inst) funcLits(nodes ...ast.Node) {
 		}
 		ast.Inspect(n, func(n ast.Node) bool {
 			if fl, ok := n.(*ast.FuncLit); ok {
+				saved := in.loops
+				in.loops = nil
 				fl.Body.List = in.block(fl.Body.List)
+				in.loops = saved
 				return false
 			}
 			return true
@@ -430,13 +498,13 @@ func (in *inst) stmt(s ast.Stmt) []ast.Stmt {
 			in.uninstrumented(s.Pos(), "sync/atomic call in a for condition/post statement")
 		}
 		pre := in.pre(s.Pos(), []ast.Stmt{s.Init}, nil)
-		s.Body.List = in.block(s.Body.List)
+		pre = append(pre, in.withLoop(s, s.Body)...)
 		return append(pre, s)
 	case *ast.RangeStmt:
 		in.funcLits(s.X)
 		if !in.isChan(s.X) {
 			pre := in.pre(s.Pos(), nil, []ast.Expr{s.X})
-			s.Body.List = in.block(s.Body.List)
+			pre = append(pre, in.withLoop(s, s.Body)...)
 			return append(pre, s)
 		}
 		in.counts["range-chan"]++
@@ -458,7 +526,8 @@ func (in *inst) stmt(s ast.Stmt) []ast.Stmt {
 			&ast.AssignStmt{Lhs: []ast.Expr{key, okv}, Tok: tok, Rhs: []ast.Expr{&ast.UnaryExpr{Op: token.ARROW, X: c}}},
 			&ast.IfStmt{Cond: &ast.UnaryExpr{Op: token.NOT, X: okv}, Body: &ast.BlockStmt{List: []ast.Stmt{&ast.BranchStmt{Tok: token.BREAK}}}},
 		}
-		body = append(body, in.block(s.Body.List)...)
+		pre = append(pre, in.withLoop(s, s.Body)...)
+		body = append(body, s.Body.List...)
 		return append(pre, &ast.ForStmt{For: s.For, Body: &ast.BlockStmt{List: body}})
 	case *ast.SwitchStmt:
 		in.funcLits(stmtNode(s.Init), exprNode(s.Tag))
@@ -570,6 +639,7 @@ func (in *inst) sel(s *ast.SelectStmt) []ast.Stmt {
 
 func (in *inst) goStmt(s *ast.GoStmt) []ast.Stmt {
 	in.counts["go"]++
+	sym := in.symSpawn(s) // decided on the original syntax tree
 	in.funcLits(s.Call)
 	if len(in.recvs(s.Call)) > 0 {
 		in.uninstrumented(s.Pos(), "receive in the operands of a go statement")
@@ -596,7 +666,15 @@ func (in *inst) goStmt(s *ast.GoStmt) []ast.Stmt {
 		args = append(args, t)
 	}
 	h := ast.NewIdent(in.tmp("H"))
-	pre = append(pre, &ast.AssignStmt{Lhs: []ast.Expr{h}, Tok: token.DEFINE, Rhs: []ast.Expr{call("Spawn")}})
+	spawn := call("Spawn")
+	if sym != nil {
+		if sym.tok == "" {
+			sym.tok = in.tmp("Sym")
+		}
+		in.counts["go-symmetric"]++
+		spawn = call("SpawnSym", &ast.UnaryExpr{Op: token.AND, X: ast.NewIdent(sym.tok)})
+	}
+	pre = append(pre, &ast.AssignStmt{Lhs: []ast.Expr{h}, Tok: token.DEFINE, Rhs: []ast.Expr{spawn}})
 	inner := &ast.CallExpr{Fun: f, Args: args, Ellipsis: c.Ellipsis}
 	if c.Ellipsis != token.NoPos {
 		inner.Ellipsis = 1
